@@ -1,6 +1,7 @@
 from pyvc.contracts import contract, REGISTRY
 from pyvc.shapes import *
 from specs.dwarf import StructsT, CUT, SecT
+from specs.die import has_top
 from specs.lists import gaddr, word_at_addr, offset_word, is_kind, rnglist_at, loclist_at, has_base, base_of, loc_off, u16_at
 
 from contracts._dwarf_shapes import DInfoT, CUArg
@@ -20,7 +21,8 @@ class get_addr:
     params = dict(self=SameAs('cu.dwarfinfo'), cu=CUArg, addr_index=Nat)
     returns = Nat
     modifies = ["*rep"]         # the unit's root entry may be parsed and cached on the way
-    ensures = ["self.debug_addr_sec is not None", "has_base(cu, 'DW_AT_addr_base')", "result == gaddr(cu, addr_index)"]
+    ensures = ["self.debug_addr_sec is not None", "has_base(cu, 'DW_AT_addr_base')", "result == gaddr(cu, addr_index)",
+               "not old(has_top(cu)) or cu.dwarfinfo.debug_info_sec.stream.pos == old(cu.dwarfinfo.debug_info_sec.stream.pos)", "not old(has_top(cu)) or has_top(cu)"]
     may_raise = ["DWARFError", "ELFParseError", "OverflowError", "KeyError"]
 
 
